@@ -96,11 +96,11 @@ impl<'a> GeneratorState<'a> {
                                 *l < 0
                             },
                             ExprType::Absolute(variable, _, _) => {
-                                let v = self.compiler_state.get_variable(variable);
+                                let v = self.variable_or_error(variable, pos)?;
                                 v.signed
                             },
                             ExprType::AbsoluteX(s) | ExprType::AbsoluteY(s) => {
-                                let v = self.compiler_state.get_variable(s);
+                                let v = self.variable_or_error(s, pos)?;
                                 v.signed
                             },
                             ExprType::Tmp(s) => {
@@ -121,7 +121,7 @@ impl<'a> GeneratorState<'a> {
                 };
             },
             ExprType::Absolute(variable, eight_bits, off) => {
-                let v = self.compiler_state.get_variable(variable);
+                let v = self.variable_or_error(variable, pos)?;
                 if let ExprType::Immediate(r) = right2 {
                     if v.var_type == VariableType::CharPtr && !*eight_bits && v.var_const {
                         match op {
@@ -160,7 +160,7 @@ impl<'a> GeneratorState<'a> {
                 signed = v.signed;
             },
             ExprType::AbsoluteX(s) | ExprType::AbsoluteY(s) => {
-                let v = self.compiler_state.get_variable(s);
+                let v = self.variable_or_error(s, pos)?;
                 signed = v.signed;
                 if acc_in_use { self.sasm(PHA)?; }
                 self.asm(LDA, left, pos, high_byte)?;
